@@ -41,7 +41,8 @@ Record cfg := {
   fix_text_pseudo : bool;  (* _GD_AsciiSeek rewinds when file->pos is a (negative) pseudo position *)
   fix_leak : bool;         (* D->recurse_level-- on the GD_E_RANGE paths of _GD_DoField / _GD_Seek *)
   fix_negseek : bool;      (* _GD_DoRaw does not seek to a negative sample after an all-padding read *)
-  fix_phase_sign : bool    (* _GD_GetIOPos subtracts / _GD_Seek adds the PHASE shift (as reads do) *)
+  fix_phase_sign : bool;   (* _GD_GetIOPos subtracts / _GD_Seek adds the PHASE shift (as reads do) *)
+  fix_bz_err : bool        (* _GD_Bzip2Read/_GD_Bzip2Seek restart the stream after a decoder error *)
 }.
 
 Inductive enc := ERaw | EBz | ETxt.
@@ -115,13 +116,31 @@ Section Bz.
   Definition take_data (st : rawst) (p n : Z) : option (list Z) :=
     if (0 <=? p) && (0 <=? n) && (p + n <=? len (b_data st)) then Some (slice (b_data st) p n) else None.
 
+  (* a decoder error (BZ_DATA_ERROR, BZ_UNEXPECTED_EOF, ..) is encoded as a negative count -(k+1):
+     the failing BZ2_bzRead wrote k decoded bytes into the buffer before it noticed *)
+  Definition dec_err (r : Z * bool) : bool := fst r <? 0.
+  Definition overwrite (data new : list Z) : list Z := new ++ skipn (length new) data.
+
+  (* the state the error returns of _GD_Bzip2Read / _GD_Bzip2Seek leave behind (bzip.c).  Before 3ea47ff
+     nothing was tidied up: base/pos/end/file->pos stayed as they were, over a partly overwritten buffer.
+     Since 3ea47ff (flag fix_bz_err): `ptr->base += ptr->end; ptr->pos = ptr->end = 0;
+     file->pos = ptr->base / GD_SIZE(data_type)` -- the window is emptied at the decoder's position
+     (the bytes left in the buffer are never looked at again: b_data := []) *)
+  Definition bz_fail (c : cfg) (size : Z) (S : list Z) (st : rawst) : rawst :=
+    if fix_bz_err c then
+      set_fpos (set_win st (b_base st + b_end st) 0 0 (b_send st) []) ((b_base st + b_end st) / size)
+    else
+      let k := - (fst (dec S (b_base st + b_end st)) + 1) in
+      set_win st (b_base st) (b_pos st) (b_end st) (b_send st)
+              (overwrite (b_data st) (slice S (b_base st + b_end st) k)).
+
   Definition bz_load (S : list Z) (st : rawst) (pos : Z) : rawst * bool :=
     let base' := b_base st + b_end st in
     let '(n, fin) := dec S base' in
     (set_win st base' pos n (fin || b_send st) (slice S base' n), fin).
 
   (* the while loop of _GD_Bzip2Read (bzip.c:147-179): result = (state, nbytes left, output, returned-early) *)
-  Fixpoint bz_read_loop (fuel : nat) (S : list Z) (st : rawst) (nbytes : Z) (out : list Z)
+  Fixpoint bz_read_loop (c : cfg) (size : Z) (fuel : nat) (S : list Z) (st : rawst) (nbytes : Z) (out : list Z)
     : option (rawst * Z * list Z * bool) :=
     if nbytes >? b_end st - b_pos st then
       match fuel with
@@ -134,10 +153,12 @@ Section Bz.
           let nbytes := nbytes - (b_end st - b_pos st) in
           let st := set_bpos st (b_end st) in
           if b_send st then Some (st, nbytes, out, true)
+          else if dec_err (dec S (b_base st + b_end st)) then
+            Some (bz_fail c size S st, -1, out, true)   (* bzip.c: return -1 *)
           else
             let '(st, fin) := bz_load S st 0 in
             if fin then Some (st, nbytes, out, false)
-            else bz_read_loop fuel' S st nbytes out
+            else bz_read_loop c size fuel' S st nbytes out
         end
       end
     else Some (st, nbytes, out, false).
@@ -149,9 +170,10 @@ Section Bz.
 
   Definition bz_read (c : cfg) (S : list Z) (size : Z) (st : rawst) (nmemb : Z)
     : option (rawst * list Z * Z) :=
-    match bz_read_loop (bz_fuel S) S st (nmemb * size) [] with
+    match bz_read_loop c size (bz_fuel S) S st (nmemb * size) [] with
     | None => None
     | Some (st, nbytes, out, true) =>
+        if nbytes <? 0 then Some (st, [], -1) else      (* decoder error *)
         (* bzip.c:155-158: returns without touching file->pos *)
         let st := if fix_bz_eof c then set_fpos st ((b_base st + b_pos st) / size) else st in
         Some (st, out, bz_count c size nmemb nbytes)
@@ -176,23 +198,26 @@ Section Bz.
     end.
 
   (* the forward loop of _GD_Bzip2Seek (bzip.c:256-277); pos is not touched in the loop *)
-  Fixpoint bz_seek_loop (fuel : nat) (S : list Z) (st : rawst) (off : Z) : option rawst :=
+  Fixpoint bz_seek_loop (c : cfg) (size : Z) (fuel : nat) (S : list Z) (st : rawst) (off : Z) : option (rawst * bool) :=
     if b_base st + b_end st <? off then
-      if b_send st then Some st
+      if b_send st then Some (st, false)
       else match fuel with
            | O => None
-           | Datatypes.S fuel' => bz_seek_loop fuel' S (fst (bz_load S st (b_pos st))) off
+           | Datatypes.S fuel' =>
+               if dec_err (dec S (b_base st + b_end st)) then Some (bz_fail c size S st, true)   (* bzip.c: return -1 *)
+               else bz_seek_loop c size fuel' S (fst (bz_load S st (b_pos st))) off
            end
-    else Some st.
+    else Some (st, false).
 
   Definition bz_seek (c : cfg) (S : list Z) (size : Z) (st : rawst) (offset : Z) : option (rawst * Z) :=
     if r_fpos st =? offset then Some (st, offset)            (* bzip.c:234 *)
     else
       let off := offset * size in
       let st := if fix_bz_rewind c && (off <? b_base st) then set_win st 0 0 0 false [] else st in
-      match bz_seek_loop (bz_fuel S) S st off with
+      match bz_seek_loop c size (bz_fuel S) S st off with
       | None => None
-      | Some st =>
+      | Some (st, true) => Some (st, -1)
+      | Some (st, false) =>
         let p := if b_send st && (b_base st + b_end st <=? off) then b_end st else off - b_base st in
         let st := set_bpos st p in
         let fp := (b_base st + b_pos st) / size in
@@ -559,3 +584,9 @@ Definition dec_bz2 (BUF : Z) (eager : bool) (S : list Z) (consumed : Z) : Z * bo
   if rest <? BUF then (Z.max 0 rest, true)
   else if (rest =? BUF) && eager then (BUF, true)
   else (BUF, false).
+
+(* the same decoder over a stream whose stored CRC is wrong: every byte decodes, the call that would
+   report the end of the stream fails instead, after writing its bytes into the buffer *)
+Definition dec_bz2_crc (BUF : Z) (eager : bool) (S : list Z) (consumed : Z) : Z * bool :=
+  let '(n, fin) := dec_bz2 BUF eager S consumed in
+  if fin then (- (n + 1), false) else (n, fin).
